@@ -165,7 +165,7 @@ class TypeTable:
     def _parse(self, s):
         s = s.strip()
         # anonymous records carry a location in parentheses: take the whole thing as a base token
-        m = re.match(r"^((?:const |volatile )*)((?:struct|union|enum) \((?:unnamed|anonymous)[^)]*\))(.*)$", s)
+        m = re.match(r"^((?:const |volatile )*)((?:struct|union|enum) (?:[\w:]+::)?\((?:unnamed|anonymous)[^)]*\))(.*)$", s)
         if m:
             base = self._anon(m.group(2))
             return self._suffix(base, m.group(3).strip(), s)
@@ -213,9 +213,11 @@ class TypeTable:
         key = re.sub(r"^(const |volatile )+", "", key)
         if key.startswith("enum"):
             return TInt(32, False, "enum", is_enum=True)
-        if key not in self.anon:
+        m = re.search(r" at ([^)]*)\)", key)
+        loc = m.group(1) if m else key
+        if loc not in self.anon:
             raise Unsupported("anonymous record %r not indexed" % key)
-        return TRecord(self.anon[key])
+        return TRecord(self.anon[loc])
 
     def _suffix(self, base, suf, whole):
         """apply declarator suffix: sequence of '*' (with quals) then array dims"""
